@@ -51,6 +51,16 @@ func propC03(w *World, r *Report) {
 	}
 	RunLosslessFor(w, r, "C03", newBoundsRun(w))
 	RunSearchFields(w, r, map[string]bool{"header.Write": true})
+	{
+		var hw []*ssa.Function
+		for _, f := range w.LibFuncs() {
+			if fnPkgPath(f) == modPath+"/header" {
+				hw = append(hw, f)
+			}
+		}
+		RunInputAppend(w, r, hw)
+		r.Floor("inputappend", 2)
+	}
 	r.Floor("searchfields", 3)
 }
 
@@ -434,4 +444,96 @@ func backLoadAddr(v ssa.Value) ssa.Value {
 		return u.X
 	}
 	return v
+}
+
+// RunInputAppend: the byte slices a caller hands to the container writer stay
+// the caller's: an append whose base is such a slice writes into its spare
+// capacity, which may be the next table of the same buffer.
+func RunInputAppend(w *World, r *Report, fns []*ssa.Function) {
+	r.Rule("inputappend: in the container writer no append has as its base a byte slice that comes from a parameter (a value of the tables map, an element of a parameter slice): appending to caller-owned data can overwrite what follows it in the caller's buffer (padding is written separately)")
+	for _, fn := range fns {
+		if fn.Blocks == nil {
+			continue
+		}
+		for _, b := range fn.Blocks {
+			for _, in := range b.Instrs {
+				c, ok := in.(*ssa.Call)
+				if !ok {
+					continue
+				}
+				bi, ok := c.Call.Value.(*ssa.Builtin)
+				if !ok || bi.Name() != "append" || len(c.Call.Args) == 0 {
+					continue
+				}
+				key := r.MkKey("inputappend", fnName(fn), "append")
+				bad := ""
+				seen := map[ssa.Value]bool{}
+				var visit func(v ssa.Value, depth int)
+				visit = func(v ssa.Value, depth int) {
+					if seen[v] || depth > 10 || bad != "" {
+						return
+					}
+					seen[v] = true
+					switch x := v.(type) {
+					case *ssa.Slice:
+						visit(x.X, depth+1)
+					case *ssa.Phi:
+						for _, e := range x.Edges {
+							visit(e, depth+1)
+						}
+					case *ssa.Call:
+						if bi, ok := x.Call.Value.(*ssa.Builtin); ok && bi.Name() == "append" {
+							visit(x.Call.Args[0], depth+1)
+						}
+					case *ssa.Extract:
+						visit(x.Tuple, depth+1)
+					case *ssa.Lookup:
+						if fromParam(x.X) {
+							bad = "a value of the map parameter " + x.X.Name()
+						}
+					case *ssa.Next:
+						if rg, ok := x.Iter.(*ssa.Range); ok && fromParam(rg.X) {
+							bad = "a value of the map parameter " + rg.X.Name()
+						}
+					case *ssa.UnOp:
+						if ia, ok := x.X.(*ssa.IndexAddr); ok && fromParam(ia.X) {
+							bad = "an element of the parameter " + ia.X.Name()
+						}
+					case *ssa.Parameter:
+						if _, isSl := x.Type().Underlying().(*types.Slice); isSl && !returnsAppendStyle(fn, x) {
+							bad = "the parameter " + x.Name()
+						}
+					}
+				}
+				visit(c.Call.Args[0], 0)
+				if bad == "" {
+					r.OK("inputappend", key, w.Pos(c.Pos()), "base is a local buffer")
+				} else {
+					r.Fail("inputappend", key, w.Pos(c.Pos()), "append extends "+bad+": bytes beyond its length but within its capacity belong to the caller (for adjacent sub-slices of one buffer: to the next table) and are overwritten", nil)
+				}
+			}
+		}
+	}
+}
+
+func fromParam(v ssa.Value) bool {
+	switch x := v.(type) {
+	case *ssa.Parameter:
+		return true
+	case *ssa.ChangeType:
+		return fromParam(x.X)
+	}
+	return false
+}
+
+// returnsAppendStyle: the function returns a slice of the same type (the
+// append-style API  func(buf []byte, ...) []byte ).
+func returnsAppendStyle(fn *ssa.Function, par *ssa.Parameter) bool {
+	res := fn.Signature.Results()
+	for i := 0; i < res.Len(); i++ {
+		if types.Identical(res.At(i).Type(), par.Type()) {
+			return true
+		}
+	}
+	return false
 }
